@@ -2009,7 +2009,11 @@ Proof.
 Qed.
 
 Lemma Pkr_delete_op : forall s h, Pkr sch s -> Pkr sch (fst (delete_op sch s h)).
-Proof. intros. unfold delete_op. destruct (hget s h); auto. apply Pkr_lift_unit. apply Pkr_delete_obj; auto. Qed.
+Proof.
+  intros s h P. unfold delete_op. destruct (hget s h) as [o|]; [|exact P].
+  assert (H : Pkr sch (out_state (delete_obj (del_fuel sch s) sch s o))) by (apply Pkr_delete_obj; auto). destruct (delete_obj (del_fuel sch s) sch s o) as [s1 u|s1 er]; cbn [fst].
+  exact H. apply Pkr_dirty. discriminate.
+Qed.
 
 Lemma Pkr_coll_op : forall s k h a hs, Pkr sch s -> Pkr sch (fst (coll_op sch s k h a hs)).
 Proof.
